@@ -109,6 +109,17 @@ func (eng *Engine) verifyFunc(fn *ssa.Function, props []string) (fc *FnCtx, err 
 				fr.panicsWhenOld = append(fr.panicsWhenOld, fc.define("pw", "Bool", t))
 			}
 		}
+		// trusted axioms (facts about dependencies' globals, e.g. io.EOF != nil) hold in the entry state
+		for _, ax := range eng.contracts.Axioms {
+			aenv := &SpecEnv{fc: fc, vars: map[string]SV{}, cur: st, old: st, pkg: eng.pkgOfSpec(&FuncSpec{Pkg: ax.Pkg})}
+			t, e := aenv.evalBool(ax.E)
+			if e != nil {
+				eng.staleErrs = append(eng.staleErrs, fmt.Sprintf("contract-stale: axiom %q (%s): %v", ax.Text, ax.Src, e))
+				continue
+			}
+			fc.assumes["axiom: "+ax.Text+" ("+ax.Src+")"] = true
+			fc.assume("true", t)
+		}
 		fc.cover("entry", "true")
 		fr.walk(st, params, "true")
 	}
